@@ -1103,8 +1103,126 @@ pub fn check_pairs(case: &Case) -> Verdict {
     check_with(case, true)
 }
 
+// ---------------------------------------------------------------------------
+// Oracle (3): a brace group is the union of its branches
+// ---------------------------------------------------------------------------
+
+/// `{b1,...,bn}` (the whole glob) against the globs `b1` ... `bn` compiled on
+/// their own with the same options. The documentation says alternates match
+/// any of the sub-patterns; this holds whatever a branch contains (also `**/`,
+/// `/**`, `/**/`, on which the model of oracle (2) is silent inside braces),
+/// so it is checked without a model, over ALL paths up to a length bound.
+#[derive(Clone, Debug, Serialize, Deserialize)]
+pub struct AltCase {
+    pub branches: Vec<Vec<Tok>>,
+    pub opts: Opts,
+    pub max_len: usize,
+}
+
+pub fn gen_alt_case(t: &mut Tape) -> AltCase {
+    let opts = gen_opts(t);
+    let n = 2 + t.below(2);
+    let mut branches = vec![];
+    for _ in 0..n {
+        // a small alternate-free glob; recursive wildcards in their legal positions are welcome
+        let mut toks: Vec<Tok> = gen_free(t, &opts, false).into_iter().filter(|x| !matches!(x, Tok::Alt(_) | Tok::Raw(_) | Tok::All)).collect();
+        if t.chance(1, 3) && !toks.is_empty() && !is_rec(toks.last().unwrap()) {
+            toks.push(Tok::RecSuffix);
+        }
+        if t.chance(1, 4) && !toks.is_empty() && !is_rec(&toks[0]) {
+            toks.insert(0, Tok::RecPrefix);
+        }
+        branches.push(toks);
+    }
+    AltCase { branches, opts, max_len: 5 }
+}
+
+pub fn check_alt(c: &AltCase) -> Verdict {
+    let mk = |text: &str| {
+        GlobBuilder::new(text)
+            .case_insensitive(c.opts.case_insensitive)
+            .literal_separator(c.opts.literal_separator)
+            .backslash_escape(c.opts.backslash_escape)
+            .empty_alternates(c.opts.empty_alternates)
+            .build()
+            .map(|g| g.compile_matcher())
+    };
+    let mut texts = vec![];
+    let mut singles = vec![];
+    for b in &c.branches {
+        if !legal(&GlobSpec { toks: b.clone(), opts: c.opts }) {
+            return Verdict::Reject("a branch is outside the documented grammar");
+        }
+        let mut in_group = String::new();
+        render_toks(b, &c.opts, true, &mut in_group);
+        let mut alone = String::new();
+        render_toks(b, &c.opts, false, &mut alone);
+        match mk(&alone) {
+            Ok(m) => singles.push(m),
+            Err(_) => return Verdict::Reject("a branch does not build on its own"),
+        }
+        texts.push((in_group, alone));
+    }
+    let group_text = format!("{{{}}}", texts.iter().map(|(g, _)| g.as_str()).collect::<Vec<_>>().join(","));
+    let Ok(group) = mk(&group_text) else { return Verdict::Reject("the brace group does not build") };
+    let set = match GlobSetBuilder::new()
+        .add(
+            GlobBuilder::new(&group_text)
+                .case_insensitive(c.opts.case_insensitive)
+                .literal_separator(c.opts.literal_separator)
+                .backslash_escape(c.opts.backslash_escape)
+                .empty_alternates(c.opts.empty_alternates)
+                .build()
+                .unwrap(),
+        )
+        .build()
+    {
+        Ok(s) => s,
+        Err(_) => return Verdict::Reject("the one-glob set does not build"),
+    };
+    let mut matched = 0u64;
+    let mut total = 0u64;
+    for p in all_paths(c.max_len) {
+        let path = as_path(&p);
+        let want = singles.iter().any(|m| m.is_match(path));
+        let got = group.is_match(path);
+        total += 1;
+        matched += u64::from(want);
+        if got != want || set.is_match(path) != want {
+            return Verdict::Fail(
+                Fail::new(format!(
+                    "alternates: {:?} {} the path {:?}, but {} of its branches {:?} (compiled alone, same options) matches it\n options: {}\n reproduce: GlobBuilder::new({:?}) ... .is_match({:?}); set.is_match = {}",
+                    group_text,
+                    if got { "matches" } else { "does not match" },
+                    show(&p),
+                    if want { "one" } else { "none" },
+                    texts.iter().map(|(_, a)| a.as_str()).collect::<Vec<_>>(),
+                    opts_label(&c.opts),
+                    group_text,
+                    show(&p),
+                    set.is_match(path)
+                ))
+                .fact("oracle:alternates-are-the-union-of-their-branches"),
+            );
+        }
+    }
+    let has_rec = |f: &dyn Fn(&Tok) -> bool| c.branches.iter().any(|b| b.iter().any(|t| f(t)));
+    let mut info = Info::new(matched > 0 && matched < total);
+    info.class_if(has_rec(&|t| matches!(t, Tok::RecSuffix)), "branch_with_recursive_suffix");
+    info.class_if(c.branches.iter().skip(1).any(|b| matches!(b.last(), Some(Tok::RecSuffix))), "recursive_suffix_in_a_later_branch");
+    info.class_if(has_rec(&|t| matches!(t, Tok::RecPrefix)), "branch_with_recursive_prefix");
+    info.class_if(has_rec(&|t| matches!(t, Tok::RecInfix)), "branch_with_recursive_infix");
+    info.class_if(c.opts.literal_separator, "literal_separator");
+    info.class_if(c.branches.iter().any(|b| b.is_empty()), "empty_branch");
+    Verdict::Pass(info)
+}
+
 pub fn replay(pc: &PropCtx, sub: &str, case: &serde_json::Value) -> Result<Verdict, String> {
     let _ = pc;
+    if sub == "alternates" {
+        let c: AltCase = serde_json::from_value(case.clone()).map_err(|e| e.to_string())?;
+        return Ok(check_alt(&c));
+    }
     let c: Case = serde_json::from_value(case.clone()).map_err(|e| e.to_string())?;
     Ok(if sub == "pairs" { check_pairs(&c) } else { check(&c) })
 }
@@ -1788,7 +1906,7 @@ fn sweep(pc: &PropCtx, sub: &'static str, sets: usize, max_len: usize) {
 
 pub fn run(pc: &PropCtx) {
     pc.rule(
-        "globs are token sequences (literal, ?, *, **/ prefix, /** suffix, /**/ infix, class, negated class, one level of {a,b}, escapes; <= 5 tokens) built from shape templates that reach each of the seven set strategies plus a free shape, each with its own four GlobBuilder options; sets have 1-8 globs (sometimes the same glob twice); ~4% of the globs are outside the documented grammar (illegal ** positions, [^a], {}), these are checked by oracle (1) only. sweep: every set is run against ALL non-empty strings over {a,b,.,/,-,A} up to the length bound; pairs / sets_random: paths sampled from the glob's language and mutated (longer, bytes >= 0x80, newline, metacharacters, leading /, trailing . and /). Oracle (1): GlobSet::matches(p) holds exactly the indices [i | globs[i].compile_matcher().is_match(p)], each once (the order of the answer is recorded, not judged), and is_match(p) <=> non-empty (plus the *_candidate/_into entry points in the random runs). Oracle (2): member is_match(p) == GlobModel(tokens, options, p). Non-trivial (sweep, sets_random) = the set contains globs of >= 3 different strategy kinds (kind re-derived from the token shape) and the path matches at least one glob and not all; (pairs) = the glob is not a pure literal, the model decided and at least one path matches. Sweep (set, path) pairs are distinct by construction (two generated sets being equal is not excluded but negligible).",
+        "globs are token sequences (literal, ?, *, **/ prefix, /** suffix, /**/ infix, class, negated class, one level of {a,b}, escapes; <= 5 tokens) built from shape templates that reach each of the seven set strategies plus a free shape, each with its own four GlobBuilder options; sets have 1-8 globs (sometimes the same glob twice); ~4% of the globs are outside the documented grammar (illegal ** positions, [^a], {}), these are checked by oracle (1) only. sweep: every set is run against ALL non-empty strings over {a,b,.,/,-,A} up to the length bound; pairs / sets_random: paths sampled from the glob's language and mutated (longer, bytes >= 0x80, newline, metacharacters, leading /, trailing . and /). Oracle (1): GlobSet::matches(p) holds exactly the indices [i | globs[i].compile_matcher().is_match(p)], each once (the order of the answer is recorded, not judged), and is_match(p) <=> non-empty (plus the *_candidate/_into entry points in the random runs). Oracle (2): member is_match(p) == GlobModel(tokens, options, p). Oracle (3), alternates: a glob that is one brace group {b1,..,bn} of 2-3 alternate-free branches (with **/ , /** and /**/ in their legal positions) matches a path iff one of the branches compiled alone with the same options does, for ALL paths over the sweep alphabet up to length 5, also through a one-glob set. Non-trivial (sweep, sets_random) = the set contains globs of >= 3 different strategy kinds (kind re-derived from the token shape) and the path matches at least one glob and not all; (pairs) = the glob is not a pure literal, the model decided and at least one path matches. Sweep (set, path) pairs are distinct by construction (two generated sets being equal is not excluded but negligible).",
     );
     pc.assume("GlobModel (harness/src/props/c12.rs) is the reading of the crate-level syntax documentation and the GlobBuilder option docs used as oracle (2); where the documentation is silent or contradicts itself the model abstains (model_silent:* classes): paths starting with / or containing //, non-ASCII paths under ? or a negated class, a path ending at the slash of a /** suffix (e.g. a/** vs a/), a class that would match / while literal_separator is on");
     pc.assume("a brace group means its brace expansion; with empty_alternates off an empty alternate is dropped (groups whose alternates are all empty are outside the model)");
@@ -1805,6 +1923,10 @@ pub fn run(pc: &PropCtx) {
     pc.run_tape("pairs", pairs, (48, 200), gen_pairs_case, check_pairs);
     let rsets = pc.tier.pick(40_000, 600_000);
     pc.run_tape("sets_random", rsets, (96, 400), gen_set_case, check);
+    let alts = pc.tier.pick(1_500, 30_000);
+    pc.run_tape("alternates", alts, (48, 200), gen_alt_case, check_alt);
+    pc.require_class("alternates:recursive_suffix_in_a_later_branch", alts as u64 / 20);
+    pc.require_class("alternates:literal_separator", alts as u64 / 10);
 
     // generator floors
     for k in KIND_NAMES {
